@@ -1,0 +1,494 @@
+//! Read-only observation hooks for external verification tooling.
+//!
+//! This module only exists when the crate is compiled with `--cfg scnr_verif`. It exposes the
+//! compiled automata exactly as the scanner reads them, the scanner's own character class
+//! predicate, the automata that enter and leave the minimizer, and the abstract syntax tree the
+//! crate sees for a pattern. Nothing in here changes the behaviour of the crate.
+
+use std::cell::RefCell;
+
+use regex_syntax::ast::{
+    Ast, ClassAsciiKind, ClassBracketed, ClassPerl, ClassPerlKind, ClassSet, ClassSetBinaryOpKind,
+    ClassSetItem, ClassUnicode, ClassUnicodeKind, FlagsItemKind, GroupKind, LiteralKind,
+    RepetitionKind, RepetitionRange,
+};
+use rustc_hash::FxHashMap;
+
+use crate::internal::{
+    compiled_dfa::{CompiledDfa, StateData},
+    minimizer::Minimizer,
+    parse_regex_syntax, CharClassID, CharacterClassRegistry, CompiledLookahead, Nfa,
+};
+use crate::{Match, Scanner, ScannerModeSwitcher};
+
+/// A compiled automaton as `find_from` reads it.
+#[derive(Debug, Clone, PartialEq, Eq, Default)]
+pub struct DfaDump {
+    /// The patterns of the automaton (debug information of the crate).
+    pub patterns: Vec<String>,
+    /// The token types in priority order.
+    pub terminal_ids: Vec<u32>,
+    /// Per state the transitions (character class id, target state).
+    pub states: Vec<Vec<(u32, u32)>>,
+    /// Per state the accepting flag and the token type.
+    pub end_states: Vec<(bool, u32)>,
+    /// The lookaheads: token type, polarity and automaton, sorted by token type.
+    pub lookaheads: Vec<(u32, bool, DfaDump)>,
+}
+
+/// A compiled scanner mode.
+#[derive(Debug, Clone, PartialEq, Eq, Default)]
+pub struct ModeDump {
+    /// The name of the mode.
+    pub name: String,
+    /// The automaton of the mode.
+    pub dfa: DfaDump,
+    /// The transitions (token type, target mode) in stored order.
+    pub transitions: Vec<(usize, usize)>,
+}
+
+/// A compiled scanner.
+#[derive(Debug, Clone, PartialEq, Eq, Default)]
+pub struct ScannerDump {
+    /// The modes.
+    pub modes: Vec<ModeDump>,
+    /// The printed form of the registered character classes; the index is the class id.
+    pub classes: Vec<String>,
+    /// The current mode of the scanner.
+    pub current_mode: usize,
+}
+
+/// An NFA state: (id, epsilon targets, (character class id, target) transitions).
+pub type NfaStateDump = (u32, Vec<u32>, Vec<(u32, u32)>);
+
+/// A Thompson NFA as built by `Nfa::try_from_ast` with a fresh character class registry.
+#[derive(Debug, Clone, PartialEq, Eq, Default)]
+pub struct NfaDump {
+    /// The states.
+    pub states: Vec<NfaStateDump>,
+    /// The start state.
+    pub start: u32,
+    /// The end state.
+    pub end: u32,
+    /// The printed form of the registered character classes; the index is the class id.
+    pub classes: Vec<String>,
+}
+
+impl From<&CompiledDfa> for DfaDump {
+    fn from(dfa: &CompiledDfa) -> Self {
+        let mut lookaheads: Vec<(u32, bool, DfaDump)> = dfa
+            .lookaheads
+            .iter()
+            .map(|(t, l)| (t.id(), l.is_positive, DfaDump::from(&*l.nfa)))
+            .collect();
+        lookaheads.sort_by_key(|l| l.0);
+        DfaDump {
+            patterns: dfa.patterns.clone(),
+            terminal_ids: dfa.terminal_ids.iter().map(|t| t.id()).collect(),
+            states: dfa
+                .states
+                .iter()
+                .map(|s| {
+                    s.transitions
+                        .iter()
+                        .map(|(cc, next)| (cc.id(), next.id()))
+                        .collect()
+                })
+                .collect(),
+            end_states: dfa.end_states.iter().map(|(a, t)| (*a, t.id())).collect(),
+            lookaheads,
+        }
+    }
+}
+
+impl DfaDump {
+    /// Builds the crate's automaton from a dump.
+    fn to_compiled(&self) -> CompiledDfa {
+        let mut lookaheads = FxHashMap::default();
+        for (t, is_positive, dfa) in &self.lookaheads {
+            lookaheads.insert(
+                (*t).into(),
+                CompiledLookahead {
+                    nfa: Box::new(dfa.to_compiled()),
+                    is_positive: *is_positive,
+                },
+            );
+        }
+        CompiledDfa {
+            patterns: self.patterns.clone(),
+            terminal_ids: self.terminal_ids.iter().map(|t| (*t).into()).collect(),
+            states: self
+                .states
+                .iter()
+                .map(|s| StateData {
+                    transitions: s
+                        .iter()
+                        .map(|(cc, next)| ((*cc).into(), (*next).into()))
+                        .collect(),
+                })
+                .collect(),
+            end_states: self
+                .end_states
+                .iter()
+                .map(|(a, t)| (*a, (*t).into()))
+                .collect(),
+            lookaheads,
+            current_states: Vec::new(),
+            next_states: Vec::new(),
+        }
+    }
+}
+
+fn classes_of(registry: &CharacterClassRegistry) -> Vec<String> {
+    registry
+        .character_classes()
+        .iter()
+        .map(|cc| cc.ast().to_string())
+        .collect()
+}
+
+/// Dumps the compiled automata of a scanner.
+pub fn dump(scanner: &Scanner) -> ScannerDump {
+    ScannerDump {
+        modes: scanner
+            .inner
+            .scanner_modes
+            .iter()
+            .map(|m| ModeDump {
+                name: m.name.clone(),
+                dfa: DfaDump::from(&m.dfa),
+                transitions: m
+                    .transitions
+                    .iter()
+                    .map(|(t, m)| (t.as_usize(), m.as_usize()))
+                    .collect(),
+            })
+            .collect(),
+        classes: classes_of(&scanner.inner.character_classes),
+        current_mode: scanner.current_mode(),
+    }
+}
+
+/// Calls the scanner's own character class predicate. `None` if the class is not registered.
+pub fn match_class(scanner: &Scanner, cc: u32, c: char) -> Option<bool> {
+    if (cc as usize) < scanner.inner.character_classes.len() {
+        Some((scanner.inner.match_char_class)(CharClassID::new(cc), c))
+    } else {
+        None
+    }
+}
+
+thread_local! {
+    static MINIMIZER_INPUTS: RefCell<Vec<DfaDump>> = const { RefCell::new(Vec::new()) };
+    static MINIMIZER_LOG: RefCell<Vec<(DfaDump, DfaDump)>> = const { RefCell::new(Vec::new()) };
+}
+
+/// Called at the entry of `Minimizer::minimize`.
+pub(crate) fn log_minimizer_input(dfa: &CompiledDfa) {
+    MINIMIZER_INPUTS.with(|l| l.borrow_mut().push(DfaDump::from(dfa)));
+}
+
+/// Called where `Minimizer::minimize` has built its result.
+pub(crate) fn log_minimizer_output(dfa: &CompiledDfa) {
+    if let Some(input) = MINIMIZER_INPUTS.with(|l| l.borrow_mut().pop()) {
+        MINIMIZER_LOG.with(|l| l.borrow_mut().push((input, DfaDump::from(dfa))));
+    }
+}
+
+/// Returns and clears the (input, output) pairs of all minimizer runs of this thread.
+pub fn take_minimizer_log() -> Vec<(DfaDump, DfaDump)> {
+    MINIMIZER_INPUTS.with(|l| l.borrow_mut().clear());
+    MINIMIZER_LOG.with(|l| std::mem::take(&mut *l.borrow_mut()))
+}
+
+/// Runs the crate's minimizer on an arbitrary automaton.
+pub fn minimize(dfa: &DfaDump) -> DfaDump {
+    let result = DfaDump::from(&Minimizer::minimize(dfa.to_compiled()));
+    let _ = take_minimizer_log();
+    result
+}
+
+/// Runs the crate's `CompiledDfa::find_from` on an arbitrary automaton at the start of `input`
+/// with the given character class predicate.
+pub fn find_from(
+    dfa: &DfaDump,
+    input: &str,
+    match_char_class: std::sync::Arc<dyn Fn(u32, char) -> bool + 'static>,
+) -> Option<Match> {
+    let mut dfa = dfa.to_compiled();
+    let f = move |cc: CharClassID, c: char| match_char_class(cc.id(), c);
+    dfa.find_from(input, input.char_indices(), &f)
+}
+
+/// Builds the Thompson NFA of a pattern with a fresh character class registry.
+pub fn nfa_dump(pattern: &str) -> Result<NfaDump, String> {
+    let ast = parse_regex_syntax(pattern).map_err(|e| e.to_string())?;
+    let mut registry = CharacterClassRegistry::new();
+    let nfa = Nfa::try_from_ast(ast, &mut registry).map_err(|e| e.to_string())?;
+    Ok(NfaDump {
+        states: nfa
+            .states()
+            .iter()
+            .map(|s| {
+                (
+                    s.id().id(),
+                    s.epsilon_transitions()
+                        .iter()
+                        .map(|e| e.target_state().id())
+                        .collect(),
+                    s.transitions()
+                        .iter()
+                        .map(|t| (t.char_class().id(), t.target_state().id()))
+                        .collect(),
+                )
+            })
+            .collect(),
+        start: nfa.start_state().id(),
+        end: nfa.end_state().id(),
+        classes: classes_of(&registry),
+    })
+}
+
+/// The bit widths of the id types: (state, character class, terminal, state group).
+pub fn id_bits() -> (u32, u32, u32, u32) {
+    (
+        crate::internal::StateIDBase::BITS,
+        crate::internal::CharClassIDBase::BITS,
+        crate::internal::TerminalIDBase::BITS,
+        crate::internal::StateGroupIDBase::BITS,
+    )
+}
+
+/// Parses a pattern with the crate's parser and returns the abstract syntax tree as JSON.
+pub fn parse(pattern: &str) -> Result<String, String> {
+    let ast = parse_regex_syntax(pattern).map_err(|e| e.to_string())?;
+    let mut out = String::new();
+    ast_json(&ast, &mut out);
+    Ok(out)
+}
+
+fn json_str(s: &str, out: &mut String) {
+    out.push('"');
+    for c in s.chars() {
+        match c {
+            '"' => out.push_str("\\\""),
+            '\\' => out.push_str("\\\\"),
+            c if (c as u32) < 0x20 => out.push_str(&format!("\\u{:04x}", c as u32)),
+            c => out.push(c),
+        }
+    }
+    out.push('"');
+}
+
+fn ast_list_json(asts: &[Ast], out: &mut String) {
+    out.push('[');
+    for (i, a) in asts.iter().enumerate() {
+        if i > 0 {
+            out.push(',');
+        }
+        ast_json(a, out);
+    }
+    out.push(']');
+}
+
+fn ast_json(ast: &Ast, out: &mut String) {
+    match ast {
+        Ast::Empty(_) => out.push_str("{\"k\":\"empty\"}"),
+        Ast::Flags(_) => {
+            out.push_str("{\"k\":\"flags\",\"s\":");
+            json_str(&ast.to_string(), out);
+            out.push('}');
+        }
+        Ast::Literal(l) => {
+            out.push_str(&format!(
+                "{{\"k\":\"lit\",\"c\":{},\"verb\":{},\"s\":",
+                l.c as u32,
+                l.kind == LiteralKind::Verbatim
+            ));
+            json_str(&ast.to_string(), out);
+            out.push('}');
+        }
+        Ast::Dot(_) => out.push_str("{\"k\":\"dot\",\"s\":\".\"}"),
+        Ast::Assertion(_) => {
+            out.push_str("{\"k\":\"assertion\",\"s\":");
+            json_str(&ast.to_string(), out);
+            out.push('}');
+        }
+        Ast::ClassUnicode(c) => {
+            out.push_str("{\"k\":\"cls_unicode\",\"s\":");
+            json_str(&ast.to_string(), out);
+            out.push_str(",\"cls\":");
+            unicode_json(c, out);
+            out.push('}');
+        }
+        Ast::ClassPerl(c) => {
+            out.push_str("{\"k\":\"cls_perl\",\"s\":");
+            json_str(&ast.to_string(), out);
+            out.push_str(",\"cls\":");
+            perl_json(c, out);
+            out.push('}');
+        }
+        Ast::ClassBracketed(c) => {
+            out.push_str("{\"k\":\"cls_bracketed\",\"s\":");
+            json_str(&ast.to_string(), out);
+            out.push_str(",\"cls\":");
+            bracketed_json(c, out);
+            out.push('}');
+        }
+        Ast::Repetition(r) => {
+            let (op, m, n) = match &r.op.kind {
+                RepetitionKind::ZeroOrOne => ("?", 0, 0),
+                RepetitionKind::ZeroOrMore => ("*", 0, 0),
+                RepetitionKind::OneOrMore => ("+", 0, 0),
+                RepetitionKind::Range(RepetitionRange::Exactly(m)) => ("exactly", *m, *m),
+                RepetitionKind::Range(RepetitionRange::AtLeast(m)) => ("atleast", *m, *m),
+                RepetitionKind::Range(RepetitionRange::Bounded(m, n)) => ("bounded", *m, *n),
+            };
+            out.push_str(&format!(
+                "{{\"k\":\"rep\",\"op\":\"{}\",\"m\":{},\"n\":{},\"greedy\":{},\"a\":",
+                op, m, n, r.greedy
+            ));
+            ast_json(&r.ast, out);
+            out.push('}');
+        }
+        Ast::Group(g) => {
+            let (gk, flags) = match &g.kind {
+                GroupKind::CaptureIndex(_) => ("capture", false),
+                GroupKind::CaptureName { .. } => ("named", false),
+                GroupKind::NonCapturing(flags) => (
+                    "noncapturing",
+                    flags
+                        .items
+                        .iter()
+                        .any(|f| matches!(f.kind, FlagsItemKind::Flag(_))),
+                ),
+            };
+            out.push_str(&format!(
+                "{{\"k\":\"group\",\"gk\":\"{}\",\"flags\":{},\"a\":",
+                gk, flags
+            ));
+            ast_json(&g.ast, out);
+            out.push('}');
+        }
+        Ast::Alternation(a) => {
+            out.push_str("{\"k\":\"alt\",\"as\":");
+            ast_list_json(&a.asts, out);
+            out.push('}');
+        }
+        Ast::Concat(c) => {
+            out.push_str("{\"k\":\"concat\",\"as\":");
+            ast_list_json(&c.asts, out);
+            out.push('}');
+        }
+    }
+}
+
+fn unicode_json(c: &ClassUnicode, out: &mut String) {
+    let (kind, name, value) = match &c.kind {
+        ClassUnicodeKind::OneLetter(ch) => ("one", ch.to_string(), String::new()),
+        ClassUnicodeKind::Named(name) => ("named", name.clone(), String::new()),
+        ClassUnicodeKind::NamedValue { name, value, .. } => ("value", name.clone(), value.clone()),
+    };
+    out.push_str(&format!(
+        "{{\"t\":\"unicode\",\"neg\":{},\"kind\":\"{}\",\"name\":",
+        c.is_negated(),
+        kind
+    ));
+    json_str(&name, out);
+    out.push_str(",\"value\":");
+    json_str(&value, out);
+    out.push('}');
+}
+
+fn perl_json(c: &ClassPerl, out: &mut String) {
+    let kind = match c.kind {
+        ClassPerlKind::Digit => "d",
+        ClassPerlKind::Space => "s",
+        ClassPerlKind::Word => "w",
+    };
+    out.push_str(&format!(
+        "{{\"t\":\"perl\",\"kind\":\"{}\",\"neg\":{}}}",
+        kind, c.negated
+    ));
+}
+
+fn bracketed_json(c: &ClassBracketed, out: &mut String) {
+    out.push_str(&format!(
+        "{{\"t\":\"bracketed\",\"neg\":{},\"set\":",
+        c.negated
+    ));
+    set_json(&c.kind, out);
+    out.push('}');
+}
+
+fn set_json(set: &ClassSet, out: &mut String) {
+    match set {
+        ClassSet::Item(item) => {
+            out.push_str("{\"t\":\"item\",\"i\":");
+            item_json(item, out);
+            out.push('}');
+        }
+        ClassSet::BinaryOp(op) => {
+            let kind = match op.kind {
+                ClassSetBinaryOpKind::Intersection => "and",
+                ClassSetBinaryOpKind::Difference => "diff",
+                ClassSetBinaryOpKind::SymmetricDifference => "sym",
+            };
+            out.push_str(&format!("{{\"t\":\"op\",\"op\":\"{}\",\"l\":", kind));
+            set_json(&op.lhs, out);
+            out.push_str(",\"r\":");
+            set_json(&op.rhs, out);
+            out.push('}');
+        }
+    }
+}
+
+fn item_json(item: &ClassSetItem, out: &mut String) {
+    match item {
+        ClassSetItem::Empty(_) => out.push_str("{\"t\":\"empty\"}"),
+        ClassSetItem::Literal(l) => out.push_str(&format!(
+            "{{\"t\":\"lit\",\"c\":{},\"verb\":{}}}",
+            l.c as u32,
+            l.kind == LiteralKind::Verbatim
+        )),
+        ClassSetItem::Range(r) => out.push_str(&format!(
+            "{{\"t\":\"range\",\"s\":{},\"e\":{}}}",
+            r.start.c as u32, r.end.c as u32
+        )),
+        ClassSetItem::Ascii(a) => {
+            let kind = match a.kind {
+                ClassAsciiKind::Alnum => "alnum",
+                ClassAsciiKind::Alpha => "alpha",
+                ClassAsciiKind::Ascii => "ascii",
+                ClassAsciiKind::Blank => "blank",
+                ClassAsciiKind::Cntrl => "cntrl",
+                ClassAsciiKind::Digit => "digit",
+                ClassAsciiKind::Graph => "graph",
+                ClassAsciiKind::Lower => "lower",
+                ClassAsciiKind::Print => "print",
+                ClassAsciiKind::Punct => "punct",
+                ClassAsciiKind::Space => "space",
+                ClassAsciiKind::Upper => "upper",
+                ClassAsciiKind::Word => "word",
+                ClassAsciiKind::Xdigit => "xdigit",
+            };
+            out.push_str(&format!(
+                "{{\"t\":\"ascii\",\"kind\":\"{}\",\"neg\":{}}}",
+                kind, a.negated
+            ));
+        }
+        ClassSetItem::Unicode(c) => unicode_json(c, out),
+        ClassSetItem::Perl(c) => perl_json(c, out),
+        ClassSetItem::Bracketed(c) => bracketed_json(c, out),
+        ClassSetItem::Union(u) => {
+            out.push_str("{\"t\":\"union\",\"items\":[");
+            for (i, item) in u.items.iter().enumerate() {
+                if i > 0 {
+                    out.push(',');
+                }
+                item_json(item, out);
+            }
+            out.push_str("]}");
+        }
+    }
+}
